@@ -14,6 +14,7 @@ def raw : RawFacts :=
     recheckAck := Facts.C25.recheckAck, recheckCtx := Facts.C25.recheckCtx,
     dropIfSent := Facts.C25.dropIfSent, nopOnCancel := Facts.C25.nopOnCancel,
     deleteOnReturn := Facts.C25.deleteOnReturn, removeAckDeferred := Facts.C25.removeAckDeferred,
+    handlerLogFirst := Facts.C25.handlerLogFirst,
     ackUnknown := Facts.C25.ackUnknown, ackCloses := Facts.C25.ackCloses, ackDeletes := Facts.C25.ackDeletes }
 
 /-- The engine as it is in the source, for a retry limit and interval. -/
